@@ -80,4 +80,18 @@ CONTRACTS = {
             'sat(a, result.store) == (m_complete(a, created("MappingGroup", 0).gid) and m_injective(a, created("MappingGroup", 0).gid))',
             'result._numvar == pigeons * bitlen(holes)', 'result.cls == formula_class'],
     },
+    # graph pigeonhole principle: the same four requirements over a SPARSE mapping (one variable per edge of the bipartite graph)
+    ('cnfgen/formula/cnf.py', 'Formula.new_sparse_mapping'): newmap('gnedges(B.gid)', {'B': 'obj:BipartiteGraph', 'label': 'any'}),
+    (P, 'GraphPigeonholePrinciple'): {
+        'property': ['C01', 'C08', 'C10'],
+        'params': {'G': 'obj:BipartiteGraph', 'functional': 'bool', 'onto': 'bool', 'formula_class': 'class:Formula'},
+        'ghost_params': {'a': 'asg'},
+        'raises': {},
+        'ensures': [
+            'sat(a, result.store) == (m_complete(a, created("MappingGroup", 0).gid) and m_injective(a, created("MappingGroup", 0).gid) '
+            'and implies(onto, m_surjective(a, created("MappingGroup", 0).gid)) and implies(functional, m_functional(a, created("MappingGroup", 0).gid)))',
+            'result._numvar == gnedges(G.gid)',            # one variable per edge
+            'result.cls == formula_class',
+        ],
+    },
 }
